@@ -1673,4 +1673,899 @@ def noNestPred : ValPred where
       simp_all [Reclass.combine, NoNest, NoNestL, noNestL_append, Value.isVl] <;>
       (intro x hx; rcases hx with hx | hx <;> simp_all)
 
+/-! ## No nested layer lists: kept by everything that hands out values -/
+
+mutual
+theorem closed_noNest : ∀ (v : Value), Closed v → NoNest v
+  | .map es _ _, h => by simp only [Closed] at h; simp only [NoNest]; exact closedEs_noNest es h
+  | .seq l, h => by simp only [Closed] at h; simp only [NoNest]; exact closedL_noNest l h
+  | .vl l, h => by simp [Closed] at h
+  | .str _, _ => by simp [NoNest]
+  | .null, _ => by simp [NoNest]
+  | .bool _, _ => by simp [NoNest]
+  | .num _, _ => by simp [NoNest]
+  | .lit _, _ => by simp [NoNest]
+theorem closedL_noNest : ∀ (l : List Value), ClosedL l → NoNestL l
+  | [], _ => by simp [NoNestL]
+  | v :: vs, h => by
+    simp only [ClosedL] at h; exact ⟨closed_noNest v h.1, closedL_noNest vs h.2⟩
+theorem closedEs_noNest : ∀ (es : List (Key × Value)), ClosedEs es → NoNestEs es
+  | [], _ => by simp [NoNestEs]
+  | (k, v) :: es, h => by
+    simp only [ClosedEs] at h; exact ⟨closed_noNest v h.1, closedEs_noNest es h.2⟩
+end
+
+/-- Well-formed and free of nested layer lists. -/
+def WFN (v : Value) : Prop := WF v ∧ NoNest v
+
+theorem wfn_lookup {es : List (Key × Value)} {ck ok : List Key} {k : Key} {v : Value}
+    (h : WFN (.map es ck ok)) (hl : lookup k es = some v) : WFN v := by
+  obtain ⟨h1, h2⟩ := h
+  simp only [WF] at h1
+  simp only [NoNest] at h2
+  exact ⟨lookup_some_wf h1.1 hl, noNestPred.lookupEs h2 hl⟩
+
+/-- `NoNest` postconditions at fuel `n` (well-formedness comes from `interpInv`). -/
+structure NNInv (n : Nat) : Prop where
+  tokResolve : ∀ (root : Mapping) (t : Token) (st : RState) (r : Value) (st' : RState),
+    WFN root.toValue → tokResolve n root t st = .ok (r, st') → NoNest r
+  descend : ∀ (root : Mapping) (v : Value) (segs : List Str) (st : RState) (path : Str)
+    (r : Value) (st' : RState),
+    WFN root.toValue → WFN v → descend n root v segs st path = .ok (r, st') → NoNest r
+  finalLoop : ∀ (root : Mapping) (v : Value) (st : RState) (r : Value) (st' : RState),
+    WFN root.toValue → WFN v → finalLoop n root v st = .ok (r, st') → NoNest r
+  interpStrOrVl : ∀ (root : Mapping) (v : Value) (st : RState) (r : Value) (st' : RState),
+    WFN root.toValue → WFN v → interpStrOrVl n root v st = .ok (r, st') → NoNest r
+  layersStr : ∀ (root : Mapping) (l : List Value) (st : RState) (r : List Value),
+    WFN root.toValue → WFL l → NoNestL l → layersStr n root l st = .ok r → NoNestL r
+  strLoop : ∀ (root : Mapping) (v : Value) (st : RState) (r : Value) (st' : RState),
+    WFN root.toValue → WFN v → strLoop n root v st = .ok (r, st') → WFN r
+
+theorem interp_wfn {n : Nat} {root : Mapping} {v r : Value} {st st' : RState}
+    (hr : WFN root.toValue) (hv : WF v) (h : interp n root v st = .ok (r, st')) : WFN r :=
+  have := (interpInv n).interp _ _ _ _ _ hr.1 hv h
+  ⟨this.2, closed_noNest r this.1⟩
+
+theorem nnInv : ∀ n, NNInv n := by
+  intro n
+  induction n with
+  | zero =>
+    constructor <;> intros <;>
+      simp_all [Reclass.tokResolve, Reclass.descend, Reclass.finalLoop, Reclass.interpStrOrVl,
+        Reclass.layersStr, Reclass.strLoop]
+  | succ n ih =>
+    refine ⟨?_, ?_, ?_, ?_, ?_, ?_⟩
+    · -- tokResolve
+      intro root t st r st' hr h
+      cases t with
+      | lit s => simp only [Reclass.tokResolve, Except.ok.injEq, Prod.mk.injEq] at h; rw [← h.1]; simp [NoNest]
+      | combined ts =>
+        simp only [Reclass.tokResolve] at h
+        cases h1 : Reclass.slice n root ts st with
+        | error e => simp [h1] at h
+        | ok s => simp only [h1, Except.ok.injEq, Prod.mk.injEq] at h; rw [← h.1]; simp [NoNest]
+      | ref parts =>
+        simp only [Reclass.tokResolve] at h
+        split at h
+        · simp at h
+        · cases h1 : Reclass.slice n root parts { st with depth := st.depth + 1 } with
+          | error e => simp [h1] at h
+          | ok path =>
+            simp only [h1] at h
+            split at h
+            · simp at h
+            · split at h
+              · simp at h
+              · rename_i k0 segs _
+                cases h2 : root.get (.str k0) with
+                | none => simp [h2] at h
+                | some v0 =>
+                  simp only [h2] at h
+                  have hv0 : WFN v0 := wfn_lookup (ck := root.ck) (ok := root.ok) hr h2
+                  split at h
+                  · simp at h
+                  · rename_i v st3 h3
+                    have hv : WFN v :=
+                      ⟨(interpInv n).descend _ _ _ _ _ _ _ hr.1 hv0.1 h3, ih.descend _ _ _ _ _ _ _ hr hv0 h3⟩
+                    exact ih.finalLoop _ _ _ _ _ hr hv h
+    · -- descend
+      intro root v segs st path r st' hr hv h
+      cases segs with
+      | nil => simp only [Reclass.descend, Except.ok.injEq, Prod.mk.injEq] at h; exact h.1 ▸ hv.2
+      | cons key rest =>
+        simp only [Reclass.descend] at h
+        cases h1 : Reclass.interpStrOrVl n root v st with
+        | error e => simp [h1] at h
+        | ok p =>
+          obtain ⟨newv, st1⟩ := p
+          simp only [h1] at h
+          have hn : WFN newv :=
+            ⟨(interpInv n).interpStrOrVl _ _ _ _ _ hr.1 hv.1 h1, ih.interpStrOrVl _ _ _ _ _ hr hv h1⟩
+          cases newv with
+          | map es ck ok =>
+            simp only at h
+            cases h2 : lookup (.str key) es with
+            | none => simp [h2] at h
+            | some v' =>
+              simp only [h2] at h
+              exact ih.descend _ _ _ _ _ _ _ hr (wfn_lookup hn h2) h
+          | _ => simp at h
+    · -- finalLoop
+      intro root v st r st' hr hv h
+      simp only [Reclass.finalLoop] at h
+      split at h
+      · cases h1 : Reclass.interp n root v st with
+        | error e => simp [h1] at h
+        | ok p =>
+          obtain ⟨v1, st1⟩ := p
+          simp only [h1] at h
+          exact ih.finalLoop _ _ _ _ _ hr (interp_wfn hr hv.1 h1) h
+      · simp only [Except.ok.injEq, Prod.mk.injEq] at h; exact h.1 ▸ hv.2
+    · -- interpStrOrVl
+      intro root v st r st' hr hv h
+      cases v with
+      | str s => simp only [Reclass.interpStrOrVl] at h; exact (interp_wfn hr hv.1 h).2
+      | vl l =>
+        simp only [Reclass.interpStrOrVl] at h
+        cases h1 : Reclass.layersStr n root l st with
+        | error e => simp [h1] at h
+        | ok i =>
+          simp only [h1] at h
+          cases h2 : flatVl i .null st with
+          | error e => simp [h2] at h
+          | ok x =>
+            simp only [h2, Except.ok.injEq, Prod.mk.injEq] at h
+            rw [← h.1]
+            obtain ⟨hv1, hv2⟩ := hv
+            simp only [WF] at hv1
+            simp only [NoNest] at hv2
+            exact noNestPred.flatVl_pres i .null st x (ih.layersStr _ _ _ _ hr hv1 hv2.1 h1)
+              (by simp [noNestPred, NoNest]) h2
+      | null => simp only [Reclass.interpStrOrVl, Except.ok.injEq, Prod.mk.injEq] at h; exact h.1 ▸ hv.2
+      | bool _ => simp only [Reclass.interpStrOrVl, Except.ok.injEq, Prod.mk.injEq] at h; exact h.1 ▸ hv.2
+      | num _ => simp only [Reclass.interpStrOrVl, Except.ok.injEq, Prod.mk.injEq] at h; exact h.1 ▸ hv.2
+      | lit _ => simp only [Reclass.interpStrOrVl, Except.ok.injEq, Prod.mk.injEq] at h; exact h.1 ▸ hv.2
+      | map _ _ _ => simp only [Reclass.interpStrOrVl, Except.ok.injEq, Prod.mk.injEq] at h; exact h.1 ▸ hv.2
+      | seq _ => simp only [Reclass.interpStrOrVl, Except.ok.injEq, Prod.mk.injEq] at h; exact h.1 ▸ hv.2
+    · -- layersStr
+      intro root l st r hr hl hnl h
+      cases l with
+      | nil => simp only [Reclass.layersStr, Except.ok.injEq] at h; subst h; simp [NoNestL]
+      | cons v vs =>
+        simp only [Reclass.layersStr] at h
+        simp only [WFL] at hl
+        simp only [NoNestL] at hnl
+        have hx : ∀ x, (if v.isStr then (match Reclass.interp n root v st with
+                              | .error e => .error e
+                              | .ok (x, _) => .ok x) else .ok v : R Value) = .ok x → NoNest x := by
+          intro x hx
+          by_cases hs : v.isStr
+          · simp only [hs, if_true] at hx
+            cases h1 : Reclass.interp n root v st with
+            | error e => simp [h1] at hx
+            | ok p =>
+              obtain ⟨y, st1⟩ := p
+              simp only [h1, Except.ok.injEq] at hx
+              subst hx
+              exact (interp_wfn hr hl.1 h1).2
+          · simp only [hs, Bool.false_eq_true, if_false, Except.ok.injEq] at hx
+            exact hx ▸ hnl.1
+        generalize (if v.isStr then (match Reclass.interp n root v st with
+                              | .error e => .error e
+                              | .ok (x, _) => .ok x) else .ok v : R Value) = e at h hx
+        cases e with
+        | error e => simp at h
+        | ok x =>
+          simp only at h
+          cases h2 : Reclass.layersStr n root vs st with
+          | error e => simp [h2] at h
+          | ok xs =>
+            simp only [h2, Except.ok.injEq] at h
+            subst h
+            exact ⟨hx x rfl, ih.layersStr _ _ _ _ hr hl.2 hnl.2 h2⟩
+    · -- strLoop
+      intro root v st r st' hr hv h
+      simp only [Reclass.strLoop] at h
+      split at h
+      · cases h1 : Reclass.interp n root v st with
+        | error e => simp [h1] at h
+        | ok p =>
+          obtain ⟨v1, st1⟩ := p
+          simp only [h1] at h
+          exact ih.strLoop _ _ _ _ _ hr (interp_wfn hr hv.1 h1) h
+      · simp only [Except.ok.injEq, Prod.mk.injEq] at h; exact h.1 ▸ hv
+
+
+/-! ## The `unreachable!` of `Token::resolve` is unreachable -/
+
+/-- The error is not the panic "We should have rendered Value::String and Value::ValueList
+into some other variant" of `Token::resolve`. -/
+def NotRP (e : Err) : Prop := e ≠ .panic .resolveNewvStrVl
+
+theorem parse_notRP {s : Str} {e : Err} (h : Token.parse s = .error e) : NotRP e := by
+  unfold Token.parse at h
+  split at h
+  · simp at h
+  · split at h
+    · simp at h
+    · simp only [Except.error.injEq] at h; subst h; simp [NotRP]
+    · simp only [Except.error.injEq] at h; subst h; simp [NotRP]
+
+theorem insertImpl_notRP {m : Mapping} {k : Key} {v : Value} {fc fo : Bool} {e : Err}
+    (h : m.insertImpl k v fc fo = .error e) : NotRP e := by
+  unfold Mapping.insertImpl at h
+  generalize k.stripPrefix = kp at h
+  obtain ⟨k1, p⟩ := kp
+  simp only at h
+  cases hl : lookup k1 m.es with
+  | none => simp [hl] at h
+  | some old =>
+    simp only [hl] at h
+    by_cases hc : k1 ∈ m.ck
+    · simp only [hc, if_true, Except.error.injEq] at h; subst h; simp [NotRP]
+    · simp [hc] at h
+
+theorem mergeEntries_notRP {ock ook : List Key} {es : List (Key × Value)} {e : Err} :
+    ∀ {m : Mapping}, m.mergeEntries ock ook es = .error e → NotRP e := by
+  induction es with
+  | nil => intro m h; simp [Mapping.mergeEntries] at h
+  | cons x es ih =>
+    obtain ⟨k, v⟩ := x
+    intro m h
+    simp only [Mapping.mergeEntries] at h
+    cases h1 : m.insertImpl k v (decide (k ∈ ock)) (decide (k ∈ ook)) with
+    | error e' => simp only [h1, Except.error.injEq] at h; subst h; exact insertImpl_notRP h1
+    | ok m1 => simp only [h1] at h; exact ih h
+
+theorem mergeNonVl_notRP {a b : Value} {st : RState} {e : Err}
+    (h : mergeNonVl a b st = .error e) : NotRP e := by
+  cases a with
+  | null => simp [mergeNonVl] at h
+  | map es ck ok =>
+    cases b with
+    | map es' ck' ok' =>
+      simp only [mergeNonVl] at h
+      cases h1 : Mapping.merge ⟨es, ck, ok⟩ ⟨es', ck', ok'⟩ with
+      | error e' =>
+        simp only [h1, Except.error.injEq] at h; subst h
+        exact mergeEntries_notRP (m := ⟨es, ck, ok⟩) h1
+      | ok m => simp [h1] at h
+    | _ => simp only [mergeNonVl, Except.error.injEq] at h; subst h; simp [NotRP]
+  | seq s =>
+    cases b with
+    | seq s' => simp [mergeNonVl] at h
+    | _ => simp only [mergeNonVl, Except.error.injEq] at h; subst h; simp [NotRP]
+  | str _ => simp only [mergeNonVl, Except.error.injEq] at h; subst h; simp [NotRP]
+  | vl _ => simp only [mergeNonVl, Except.error.injEq] at h; subst h; simp [NotRP]
+  | bool _ =>
+    simp only [mergeNonVl] at h
+    split at h
+    · simp only [Except.error.injEq] at h; subst h; simp [NotRP]
+    · simp at h
+  | num _ =>
+    simp only [mergeNonVl] at h
+    split at h
+    · simp only [Except.error.injEq] at h; subst h; simp [NotRP]
+    · simp at h
+  | lit _ =>
+    simp only [mergeNonVl] at h
+    split at h
+    · simp only [Except.error.injEq] at h; subst h; simp [NotRP]
+    · simp at h
+
+mutual
+theorem flat_notRP : ∀ (v : Value) (st : RState) (e : Err), flat v st = .error e → NotRP e
+  | .vl l, st, e, h => by simp only [flat] at h; exact flatVl_notRP l .null st e h
+  | .map es ck ok, st, e, h => by
+    simp only [flat] at h
+    cases h1 : flatEs es ck ok st {} with
+    | error e' => simp only [h1, Except.error.injEq] at h; subst h; exact flatEs_notRP es ck ok st {} _ h1
+    | ok m => simp [h1] at h
+  | .seq l, st, e, h => by
+    simp only [flat] at h
+    cases h1 : flatL l st with
+    | error e' => simp only [h1, Except.error.injEq] at h; subst h; exact flatL_notRP l st _ h1
+    | ok m => simp [h1] at h
+  | .str _, st, e, h => by simp only [flat, Except.error.injEq] at h; subst h; simp [NotRP]
+  | .null, st, e, h => by simp [flat] at h
+  | .bool _, st, e, h => by simp [flat] at h
+  | .num _, st, e, h => by simp [flat] at h
+  | .lit _, st, e, h => by simp [flat] at h
+theorem flatVl_notRP : ∀ (l : List Value) (base : Value) (st : RState) (e : Err),
+    flatVl l base st = .error e → NotRP e
+  | [], base, st, e, h => by simp [flatVl] at h
+  | v :: rest, base, st, e, h => by
+    simp only [flatVl] at h
+    cases h1 : mergeV base v st with
+    | error e' => simp only [h1, Except.error.injEq] at h; subst h; exact mergeV_notRP base v st _ h1
+    | ok b => simp only [h1] at h; exact flatVl_notRP rest b st e h
+theorem mergeV_notRP : ∀ (self other : Value) (st : RState) (e : Err),
+    mergeV self other st = .error e → NotRP e
+  | self, .null, st, e, h => by simp [mergeV] at h
+  | self, .vl l, st, e, h => by
+    simp only [mergeV] at h
+    cases h1 : flatVl l .null st with
+    | error e' => simp only [h1, Except.error.injEq] at h; subst h; exact flatVl_notRP l .null st _ h1
+    | ok o => simp only [h1] at h; exact mergeNonVl_notRP h
+  | self, .map es ck ok, st, e, h => by simp only [mergeV] at h; exact mergeNonVl_notRP h
+  | self, .seq l, st, e, h => by simp only [mergeV] at h; exact mergeNonVl_notRP h
+  | self, .str _, st, e, h => by simp only [mergeV] at h; exact mergeNonVl_notRP h
+  | self, .bool _, st, e, h => by simp only [mergeV] at h; exact mergeNonVl_notRP h
+  | self, .num _, st, e, h => by simp only [mergeV] at h; exact mergeNonVl_notRP h
+  | self, .lit _, st, e, h => by simp only [mergeV] at h; exact mergeNonVl_notRP h
+theorem flatL_notRP : ∀ (l : List Value) (st : RState) (e : Err), flatL l st = .error e → NotRP e
+  | [], st, e, h => by simp [flatL] at h
+  | v :: vs, st, e, h => by
+    simp only [flatL] at h
+    cases h1 : flat v st with
+    | error e' => simp only [h1, Except.error.injEq] at h; subst h; exact flat_notRP v st _ h1
+    | ok x =>
+      simp only [h1] at h
+      cases h2 : flatL vs st with
+      | error e' => simp only [h2, Except.error.injEq] at h; subst h; exact flatL_notRP vs st _ h2
+      | ok xs => simp [h2] at h
+theorem flatEs_notRP : ∀ (es : List (Key × Value)) (ck ok : List Key) (st : RState) (acc : Mapping)
+    (e : Err), flatEs es ck ok st acc = .error e → NotRP e
+  | [], ck, ok, st, acc, e, h => by simp [flatEs] at h
+  | (k, v) :: rest, ck, ok, st, acc, e, h => by
+    simp only [flatEs] at h
+    cases h1 : flat v st with
+    | error e' => simp only [h1, Except.error.injEq] at h; subst h; exact flat_notRP v st _ h1
+    | ok v' =>
+      simp only [h1] at h
+      cases h2 : acc.insertImpl k v' (decide (k ∈ ck)) (decide (k ∈ ok)) with
+      | error e' => simp only [h2, Except.error.injEq] at h; subst h; exact insertImpl_notRP h2
+      | ok acc' => simp only [h2] at h; exact flatEs_notRP rest ck ok st acc' e h
+end
+
+mutual
+theorem jsonOf_notRP : ∀ (v : Value) (e : Err), jsonOf v = .error e → NotRP e
+  | .null, e, h => by simp [jsonOf] at h
+  | .bool true, e, h => by simp [jsonOf] at h
+  | .bool false, e, h => by simp [jsonOf] at h
+  | .num _, e, h => by simp [jsonOf] at h
+  | .str _, e, h => by simp [jsonOf] at h
+  | .lit _, e, h => by simp [jsonOf] at h
+  | .vl _, e, h => by simp only [jsonOf, Except.error.injEq] at h; subst h; simp [NotRP]
+  | .seq l, e, h => by
+    simp only [jsonOf] at h
+    cases h1 : jsonOfL l with
+    | error e' => simp only [h1, Except.error.injEq] at h; subst h; exact jsonOfL_notRP l _ h1
+    | ok xs => simp [h1] at h
+  | .map es _ _, e, h => by
+    simp only [jsonOf] at h
+    cases h1 : jsonOfEs es [] with
+    | error e' => simp only [h1, Except.error.injEq] at h; subst h; exact jsonOfEs_notRP es [] _ h1
+    | ok xs => simp [h1] at h
+theorem jsonOfL_notRP : ∀ (l : List Value) (e : Err), jsonOfL l = .error e → NotRP e
+  | [], e, h => by simp [jsonOfL] at h
+  | v :: vs, e, h => by
+    simp only [jsonOfL] at h
+    cases h1 : jsonOf v with
+    | error e' => simp only [h1, Except.error.injEq] at h; subst h; exact jsonOf_notRP v _ h1
+    | ok x =>
+      simp only [h1] at h
+      cases h2 : jsonOfL vs with
+      | error e' => simp only [h2, Except.error.injEq] at h; subst h; exact jsonOfL_notRP vs _ h2
+      | ok xs => simp [h2] at h
+theorem jsonOfEs_notRP : ∀ (es : List (Key × Value)) (acc : List (Str × Str)) (e : Err),
+    jsonOfEs es acc = .error e → NotRP e
+  | [], acc, e, h => by simp [jsonOfEs] at h
+  | (k, v) :: rest, acc, e, h => by
+    simp only [jsonOfEs] at h
+    cases h1 : jsonOf v with
+    | error e' => simp only [h1, Except.error.injEq] at h; subst h; exact jsonOf_notRP v _ h1
+    | ok x => simp only [h1] at h; exact jsonOfEs_notRP rest _ e h
+end
+
+theorem rawString_notRP {v : Value} {e : Err} (h : rawString v = .error e) : NotRP e := by
+  cases v with
+  | lit _ => simp [rawString] at h
+  | null => simp [rawString] at h
+  | bool b => cases b <;> simp [rawString] at h
+  | num _ => simp [rawString] at h
+  | map es ck ok => simp only [rawString] at h; exact jsonOf_notRP _ _ h
+  | seq l => simp only [rawString] at h; exact jsonOf_notRP _ _ h
+  | str _ => simp only [rawString, Except.error.injEq] at h; subst h; simp [NotRP]
+  | vl _ => simp only [rawString, Except.error.injEq] at h; subst h; simp [NotRP]
+
+theorem interpVl_noNest : ∀ (n : Nat) (root : Mapping) (l : List Value) (r0 : Value) (st : RState)
+    (r : Value), WFN root.toValue → WFL l → NoNest r0 → interpVl n root l r0 st = .ok r →
+    NoNest r := by
+  intro n
+  induction n with
+  | zero => intros; simp_all [interpVl]
+  | succ n ih =>
+    intro root l r0 st r hr hl h0 h
+    cases l with
+    | nil => simp only [interpVl, Except.ok.injEq] at h; exact h ▸ h0
+    | cons v vs =>
+      simp only [interpVl] at h
+      simp only [WFL] at hl
+      cases h1 : interp n root v st with
+      | error e => simp [h1] at h
+      | ok p =>
+        obtain ⟨x, st1⟩ := p
+        simp only [h1] at h
+        cases h2 : mergeV r0 x st1 with
+        | error e => simp [h2] at h
+        | ok r1 =>
+          simp only [h2] at h
+          exact ih _ _ _ _ _ hr hl.2
+            (noNestPred.mergeV_pres r0 x st1 r1 h0 (interp_wfn hr hl.1 h1).2 h2) h
+
+/-- No evaluator function fails with the `Token::resolve` panic, at fuel `n`. -/
+structure NoRPInv (n : Nat) : Prop where
+  interp : ∀ (root : Mapping) (v : Value) (st : RState) (e : Err),
+    WFN root.toValue → WFN v → interp n root v st = .error e → NotRP e
+  interpL : ∀ (root : Mapping) (l : List Value) (idx : Nat) (st : RState) (e : Err),
+    WFN root.toValue → WFL l → NoNestL l → interpL n root l idx st = .error e → NotRP e
+  interpEs : ∀ (root : Mapping) (es : List (Key × Value)) (ck ok : List Key) (st : RState)
+    (acc : Mapping) (e : Err), WFN root.toValue → WFEs es → NoNestEs es →
+    interpEs n root es ck ok st acc = .error e → NotRP e
+  interpVl : ∀ (root : Mapping) (l : List Value) (r0 : Value) (st : RState) (e : Err),
+    WFN root.toValue → WFL l → NoNestL l → interpVl n root l r0 st = .error e → NotRP e
+  tokRender : ∀ (root : Mapping) (t : Token) (st : RState) (e : Err),
+    WFN root.toValue → tokRender n root t st = .error e → NotRP e
+  tokResolve : ∀ (root : Mapping) (t : Token) (st : RState) (e : Err),
+    WFN root.toValue → tokResolve n root t st = .error e → NotRP e
+  descend : ∀ (root : Mapping) (v : Value) (segs : List Str) (st : RState) (path : Str) (e : Err),
+    WFN root.toValue → WFN v → descend n root v segs st path = .error e → NotRP e
+  finalLoop : ∀ (root : Mapping) (v : Value) (st : RState) (e : Err),
+    WFN root.toValue → WFN v → finalLoop n root v st = .error e → NotRP e
+  interpStrOrVl : ∀ (root : Mapping) (v : Value) (st : RState) (e : Err),
+    WFN root.toValue → WFN v → interpStrOrVl n root v st = .error e → NotRP e
+  layersStr : ∀ (root : Mapping) (l : List Value) (st : RState) (e : Err),
+    WFN root.toValue → WFL l → NoNestL l → layersStr n root l st = .error e → NotRP e
+  slice : ∀ (root : Mapping) (ts : List Token) (st : RState) (e : Err),
+    WFN root.toValue → slice n root ts st = .error e → NotRP e
+  strLoop : ∀ (root : Mapping) (v : Value) (st : RState) (e : Err),
+    WFN root.toValue → WFN v → strLoop n root v st = .error e → NotRP e
+  sliceFinish : ∀ (root : Mapping) (v : Value) (st : RState) (e : Err),
+    WFN root.toValue → WFN v → sliceFinish n root v st = .error e → NotRP e
+
+theorem noRPInv_zero : NoRPInv 0 := by
+  constructor <;> intros <;> rename_i h <;>
+    simp only [Reclass.interp, Reclass.interpL, Reclass.interpEs, Reclass.interpVl,
+      Reclass.tokRender, Reclass.tokResolve, Reclass.descend, Reclass.finalLoop,
+      Reclass.interpStrOrVl, Reclass.layersStr, Reclass.slice, Reclass.strLoop,
+      Reclass.sliceFinish, Except.error.injEq] at h <;> subst h <;> simp [NotRP]
+
+theorem noNest_inner {v : Value} (hv : NoNest v) : ∀ l, v = .vl l → InnerLayersOK l := by
+  intro l hl
+  subst hl
+  simp only [NoNest] at hv
+  intro x hx l' hl'
+  have := hv.2 x hx
+  subst hl'
+  simp [Value.isVl] at this
+
+section rpstep
+variable {n : Nat} (ih : NoRPInv n)
+include ih
+
+theorem interp_rp (root : Mapping) (v : Value) (st : RState) (e : Err)
+    (hr : WFN root.toValue) (hv : WFN v) (h : Reclass.interp (n+1) root v st = .error e) :
+    NotRP e := by
+  cases v with
+  | str s =>
+    simp only [Reclass.interp] at h
+    cases h1 : Token.parse s with
+    | error e' => simp only [h1, Except.error.injEq] at h; subst h; exact parse_notRP h1
+    | ok o =>
+      cases o with
+      | none => simp [h1] at h
+      | some t => simp only [h1] at h; exact ih.tokRender _ _ _ _ hr h
+  | map es ck ok =>
+    simp only [Reclass.interp] at h
+    obtain ⟨h1, h2⟩ := hv
+    simp only [WF] at h1
+    simp only [NoNest] at h2
+    cases h3 : Reclass.interpEs n root es ck ok st {} with
+    | error e' =>
+      simp only [h3, Except.error.injEq] at h; subst h
+      exact ih.interpEs _ _ _ _ _ _ _ hr h1.1 h2 h3
+    | ok m => simp [h3] at h
+  | seq l =>
+    simp only [Reclass.interp] at h
+    obtain ⟨h1, h2⟩ := hv
+    simp only [WF] at h1
+    simp only [NoNest] at h2
+    cases h3 : Reclass.interpL n root l 0 st with
+    | error e' =>
+      simp only [h3, Except.error.injEq] at h; subst h
+      exact ih.interpL _ _ _ _ _ hr h1 h2 h3
+    | ok m => simp [h3] at h
+  | vl l =>
+    simp only [Reclass.interp] at h
+    obtain ⟨h1, h2⟩ := hv
+    simp only [WF] at h1
+    simp only [NoNest] at h2
+    cases h3 : Reclass.interpVl n root l .null st with
+    | error e' =>
+      simp only [h3, Except.error.injEq] at h; subst h
+      exact ih.interpVl _ _ _ _ _ hr h1 h2.1 h3
+    | ok x =>
+      simp only [h3] at h
+      refine ih.interp _ _ _ _ hr ⟨?_, ?_⟩ h
+      · exact (interpInv n).interpVl _ _ _ _ _ hr.1 h1 (by simp [WF]) h3
+      · exact interpVl_noNest n _ _ _ _ _ hr h1 (by simp [NoNest]) h3
+  | null => simp [Reclass.interp] at h
+  | bool _ => simp [Reclass.interp] at h
+  | num _ => simp [Reclass.interp] at h
+  | lit _ => simp [Reclass.interp] at h
+
+theorem interpL_rp (root : Mapping) (l : List Value) (idx : Nat) (st : RState) (e : Err)
+    (hr : WFN root.toValue) (hl : WFL l) (hn : NoNestL l)
+    (h : Reclass.interpL (n+1) root l idx st = .error e) : NotRP e := by
+  cases l with
+  | nil => simp [Reclass.interpL] at h
+  | cons v vs =>
+    simp only [Reclass.interpL] at h
+    simp only [WFL] at hl
+    simp only [NoNestL] at hn
+    cases h1 : Reclass.interp n root v (st.pushListIndex idx) with
+    | error e' =>
+      simp only [h1, Except.error.injEq] at h; subst h
+      exact ih.interp _ _ _ _ hr ⟨hl.1, hn.1⟩ h1
+    | ok p =>
+      obtain ⟨x, st1⟩ := p
+      simp only [h1] at h
+      cases h2 : Reclass.interpL n root vs (idx + 1) st with
+      | error e' =>
+        simp only [h2, Except.error.injEq] at h; subst h
+        exact ih.interpL _ _ _ _ _ hr hl.2 hn.2 h2
+      | ok xs => simp [h2] at h
+
+theorem interpEs_rp (root : Mapping) (es : List (Key × Value)) (ck ok : List Key) (st : RState)
+    (acc : Mapping) (e : Err) (hr : WFN root.toValue) (hes : WFEs es) (hn : NoNestEs es)
+    (h : Reclass.interpEs (n+1) root es ck ok st acc = .error e) : NotRP e := by
+  cases es with
+  | nil => simp [Reclass.interpEs] at h
+  | cons x rest =>
+    obtain ⟨k, v⟩ := x
+    simp only [Reclass.interpEs] at h
+    simp only [WFEs] at hes
+    simp only [NoNestEs] at hn
+    cases h1 : Reclass.interp n root v (st.pushMappingKey k) with
+    | error e' =>
+      simp only [h1, Except.error.injEq] at h; subst h
+      exact ih.interp _ _ _ _ hr ⟨hes.2.1, hn.1⟩ h1
+    | ok p =>
+      obtain ⟨v1, st1⟩ := p
+      simp only [h1] at h
+      cases h2 : flat v1 st1 with
+      | error e' => simp only [h2, Except.error.injEq] at h; subst h; exact flat_notRP _ _ _ h2
+      | ok v2 =>
+        simp only [h2] at h
+        cases h3 : acc.insertImpl k v2 (decide (k ∈ ck)) (decide (k ∈ ok)) with
+        | error e' => simp only [h3, Except.error.injEq] at h; subst h; exact insertImpl_notRP h3
+        | ok acc' =>
+          simp only [h3] at h
+          exact ih.interpEs _ _ _ _ _ _ _ hr hes.2.2 hn.2 h
+
+theorem interpVl_rp (root : Mapping) (l : List Value) (r0 : Value) (st : RState) (e : Err)
+    (hr : WFN root.toValue) (hl : WFL l) (hn : NoNestL l)
+    (h : Reclass.interpVl (n+1) root l r0 st = .error e) : NotRP e := by
+  cases l with
+  | nil => simp [Reclass.interpVl] at h
+  | cons v vs =>
+    simp only [Reclass.interpVl] at h
+    simp only [WFL] at hl
+    simp only [NoNestL] at hn
+    cases h1 : Reclass.interp n root v st with
+    | error e' =>
+      simp only [h1, Except.error.injEq] at h; subst h
+      exact ih.interp _ _ _ _ hr ⟨hl.1, hn.1⟩ h1
+    | ok p =>
+      obtain ⟨x, st1⟩ := p
+      simp only [h1] at h
+      cases h2 : mergeV r0 x st1 with
+      | error e' => simp only [h2, Except.error.injEq] at h; subst h; exact mergeV_notRP _ _ _ _ h2
+      | ok r1 =>
+        simp only [h2] at h
+        exact ih.interpVl _ _ _ _ _ hr hl.2 hn.2 h
+
+theorem tokRender_rp (root : Mapping) (t : Token) (st : RState) (e : Err)
+    (hr : WFN root.toValue) (h : Reclass.tokRender (n+1) root t st = .error e) : NotRP e := by
+  simp only [Reclass.tokRender] at h
+  cases h1 : Reclass.tokResolve n root t st with
+  | error e' =>
+    simp only [h1, Except.error.injEq] at h; subst h
+    exact ih.tokResolve _ _ _ _ hr h1
+  | ok p =>
+    obtain ⟨v, st1⟩ := p
+    simp only [h1] at h
+    have hv : WFN v := ⟨(interpInv n).tokResolve _ _ _ _ _ hr.1 h1, (nnInv n).tokResolve _ _ _ _ _ hr h1⟩
+    cases t with
+    | ref parts => exact ih.interp _ _ _ _ hr hv h
+    | lit s =>
+      simp only at h
+      cases h2 : rawString v with
+      | error e' => simp only [h2, Except.error.injEq] at h; subst h; exact rawString_notRP h2
+      | ok s' => simp [h2] at h
+    | combined ts =>
+      simp only at h
+      cases h2 : rawString v with
+      | error e' => simp only [h2, Except.error.injEq] at h; subst h; exact rawString_notRP h2
+      | ok s' => simp [h2] at h
+
+theorem tokResolve_rp (root : Mapping) (t : Token) (st : RState) (e : Err)
+    (hr : WFN root.toValue) (h : Reclass.tokResolve (n+1) root t st = .error e) : NotRP e := by
+  cases t with
+  | lit s => simp [Reclass.tokResolve] at h
+  | combined ts =>
+    simp only [Reclass.tokResolve] at h
+    cases h1 : Reclass.slice n root ts st with
+    | error e' => simp only [h1, Except.error.injEq] at h; subst h; exact ih.slice _ _ _ _ hr h1
+    | ok s => simp [h1] at h
+  | ref parts =>
+    simp only [Reclass.tokResolve] at h
+    split at h
+    · simp only [Except.error.injEq] at h; subst h; simp [NotRP]
+    · cases h1 : Reclass.slice n root parts { st with depth := st.depth + 1 } with
+      | error e' => simp only [h1, Except.error.injEq] at h; subst h; exact ih.slice _ _ _ _ hr h1
+      | ok path =>
+        simp only [h1] at h
+        split at h
+        · simp only [Except.error.injEq] at h; subst h; simp [NotRP]
+        · split at h
+          · simp only [Except.error.injEq] at h; subst h; simp [NotRP]
+          · rename_i k0 segs _
+            cases h2 : root.get (.str k0) with
+            | none => simp only [h2, Except.error.injEq] at h; subst h; simp [NotRP]
+            | some v0 =>
+              simp only [h2] at h
+              have hv0 : WFN v0 := wfn_lookup (ck := root.ck) (ok := root.ok) hr h2
+              split at h
+              · rename_i e' h3
+                simp only [Except.error.injEq] at h; subst h
+                exact ih.descend _ _ _ _ _ _ hr hv0 h3
+              · rename_i v st3 h3
+                have hv : WFN v :=
+                  ⟨(interpInv n).descend _ _ _ _ _ _ _ hr.1 hv0.1 h3, (nnInv n).descend _ _ _ _ _ _ _ hr hv0 h3⟩
+                exact ih.finalLoop _ _ _ _ hr hv h
+
+theorem descend_rp (root : Mapping) (v : Value) (segs : List Str) (st : RState) (path : Str)
+    (e : Err) (hr : WFN root.toValue) (hv : WFN v)
+    (h : Reclass.descend (n+1) root v segs st path = .error e) : NotRP e := by
+  cases segs with
+  | nil => simp [Reclass.descend] at h
+  | cons key rest =>
+    simp only [Reclass.descend] at h
+    cases h1 : Reclass.interpStrOrVl n root v st with
+    | error e' =>
+      simp only [h1, Except.error.injEq] at h; subst h
+      exact ih.interpStrOrVl _ _ _ _ hr hv h1
+    | ok p =>
+      obtain ⟨newv, st1⟩ := p
+      simp only [h1] at h
+      have hn : WFN newv :=
+        ⟨(interpInv n).interpStrOrVl _ _ _ _ _ hr.1 hv.1 h1, (nnInv n).interpStrOrVl _ _ _ _ _ hr hv h1⟩
+      have hns := interpStrOrVl_notStrVl (noNest_inner hv.2) h1
+      cases newv with
+      | map es ck ok =>
+        simp only at h
+        cases h2 : lookup (.str key) es with
+        | none => simp only [h2, Except.error.injEq] at h; subst h; simp [NotRP]
+        | some v' =>
+          simp only [h2] at h
+          exact ih.descend _ _ _ _ _ _ hr (wfn_lookup hn h2) h
+      | str _ => simp [NotStrVl, Value.isStr] at hns
+      | vl _ => simp [NotStrVl, Value.isVl] at hns
+      | null => simp only [Except.error.injEq] at h; subst h; simp [NotRP]
+      | bool _ => simp only [Except.error.injEq] at h; subst h; simp [NotRP]
+      | num _ => simp only [Except.error.injEq] at h; subst h; simp [NotRP]
+      | lit _ => simp only [Except.error.injEq] at h; subst h; simp [NotRP]
+      | seq _ => simp only [Except.error.injEq] at h; subst h; simp [NotRP]
+
+theorem finalLoop_rp (root : Mapping) (v : Value) (st : RState) (e : Err)
+    (hr : WFN root.toValue) (hv : WFN v) (h : Reclass.finalLoop (n+1) root v st = .error e) :
+    NotRP e := by
+  simp only [Reclass.finalLoop] at h
+  split at h
+  · cases h1 : Reclass.interp n root v st with
+    | error e' => simp only [h1, Except.error.injEq] at h; subst h; exact ih.interp _ _ _ _ hr hv h1
+    | ok p =>
+      obtain ⟨v1, st1⟩ := p
+      simp only [h1] at h
+      exact ih.finalLoop _ _ _ _ hr (interp_wfn hr hv.1 h1) h
+  · simp at h
+
+theorem strLoop_rp (root : Mapping) (v : Value) (st : RState) (e : Err)
+    (hr : WFN root.toValue) (hv : WFN v) (h : Reclass.strLoop (n+1) root v st = .error e) :
+    NotRP e := by
+  simp only [Reclass.strLoop] at h
+  split at h
+  · cases h1 : Reclass.interp n root v st with
+    | error e' => simp only [h1, Except.error.injEq] at h; subst h; exact ih.interp _ _ _ _ hr hv h1
+    | ok p =>
+      obtain ⟨v1, st1⟩ := p
+      simp only [h1] at h
+      exact ih.strLoop _ _ _ _ hr (interp_wfn hr hv.1 h1) h
+  · simp at h
+
+theorem interpStrOrVl_rp (root : Mapping) (v : Value) (st : RState) (e : Err)
+    (hr : WFN root.toValue) (hv : WFN v)
+    (h : Reclass.interpStrOrVl (n+1) root v st = .error e) : NotRP e := by
+  cases v with
+  | str s => simp only [Reclass.interpStrOrVl] at h; exact ih.interp _ _ _ _ hr hv h
+  | vl l =>
+    simp only [Reclass.interpStrOrVl] at h
+    obtain ⟨hv1, hv2⟩ := hv
+    simp only [WF] at hv1
+    simp only [NoNest] at hv2
+    cases h1 : Reclass.layersStr n root l st with
+    | error e' =>
+      simp only [h1, Except.error.injEq] at h; subst h
+      exact ih.layersStr _ _ _ _ hr hv1 hv2.1 h1
+    | ok i =>
+      simp only [h1] at h
+      cases h2 : flatVl i .null st with
+      | error e' => simp only [h2, Except.error.injEq] at h; subst h; exact flatVl_notRP _ _ _ _ h2
+      | ok x => simp [h2] at h
+  | null => simp [Reclass.interpStrOrVl] at h
+  | bool _ => simp [Reclass.interpStrOrVl] at h
+  | num _ => simp [Reclass.interpStrOrVl] at h
+  | lit _ => simp [Reclass.interpStrOrVl] at h
+  | map _ _ _ => simp [Reclass.interpStrOrVl] at h
+  | seq _ => simp [Reclass.interpStrOrVl] at h
+
+theorem layersStr_rp (root : Mapping) (l : List Value) (st : RState) (e : Err)
+    (hr : WFN root.toValue) (hl : WFL l) (hn : NoNestL l)
+    (h : Reclass.layersStr (n+1) root l st = .error e) : NotRP e := by
+  cases l with
+  | nil => simp [Reclass.layersStr] at h
+  | cons v vs =>
+    simp only [Reclass.layersStr] at h
+    simp only [WFL] at hl
+    simp only [NoNestL] at hn
+    by_cases hs : v.isStr
+    · simp only [hs, if_true] at h
+      cases h1 : Reclass.interp n root v st with
+      | error e' =>
+        simp only [h1, Except.error.injEq] at h; subst h
+        exact ih.interp _ _ _ _ hr ⟨hl.1, hn.1⟩ h1
+      | ok p =>
+        obtain ⟨x, st1⟩ := p
+        simp only [h1] at h
+        cases h2 : Reclass.layersStr n root vs st with
+        | error e' =>
+          simp only [h2, Except.error.injEq] at h; subst h
+          exact ih.layersStr _ _ _ _ hr hl.2 hn.2 h2
+        | ok xs => simp [h2] at h
+    · simp only [hs, Bool.false_eq_true, if_false] at h
+      cases h2 : Reclass.layersStr n root vs st with
+      | error e' =>
+        simp only [h2, Except.error.injEq] at h; subst h
+        exact ih.layersStr _ _ _ _ hr hl.2 hn.2 h2
+      | ok xs => simp [h2] at h
+
+theorem slice_rp (root : Mapping) (ts : List Token) (st : RState) (e : Err)
+    (hr : WFN root.toValue) (h : Reclass.slice (n+1) root ts st = .error e) : NotRP e := by
+  cases ts with
+  | nil => simp [Reclass.slice] at h
+  | cons t ts =>
+    simp only [Reclass.slice] at h
+    cases h1 : Reclass.tokResolve n root t st with
+    | error e' => simp only [h1, Except.error.injEq] at h; subst h; exact ih.tokResolve _ _ _ _ hr h1
+    | ok p =>
+      obtain ⟨v, st1⟩ := p
+      simp only [h1] at h
+      have hv : WFN v := ⟨(interpInv n).tokResolve _ _ _ _ _ hr.1 h1, (nnInv n).tokResolve _ _ _ _ _ hr h1⟩
+      cases h2 : Reclass.strLoop n root v st1 with
+      | error e' => simp only [h2, Except.error.injEq] at h; subst h; exact ih.strLoop _ _ _ _ hr hv h2
+      | ok p2 =>
+        obtain ⟨v', st2⟩ := p2
+        simp only [h2] at h
+        have hv' : WFN v' := (nnInv n).strLoop _ _ _ _ _ hr hv h2
+        cases h3 : Reclass.sliceFinish n root v' st2 with
+        | error e' =>
+          simp only [h3, Except.error.injEq] at h; subst h
+          exact ih.sliceFinish _ _ _ _ hr hv' h3
+        | ok s =>
+          simp only [h3] at h
+          cases h4 : Reclass.slice n root ts st with
+          | error e' => simp only [h4, Except.error.injEq] at h; subst h; exact ih.slice _ _ _ _ hr h4
+          | ok s' => simp [h4] at h
+
+theorem sliceFinish_rp (root : Mapping) (v : Value) (st : RState) (e : Err)
+    (hr : WFN root.toValue) (hv : WFN v) (h : Reclass.sliceFinish (n+1) root v st = .error e) :
+    NotRP e := by
+  simp only [Reclass.sliceFinish] at h
+  split at h
+  · cases h1 : Reclass.interp n root v st with
+    | error e' => simp only [h1, Except.error.injEq] at h; subst h; exact ih.interp _ _ _ _ hr hv h1
+    | ok p =>
+      obtain ⟨v1, st1⟩ := p
+      simp only [h1] at h
+      cases h2 : flat v1 st1 with
+      | error e' => simp only [h2, Except.error.injEq] at h; subst h; exact flat_notRP _ _ _ h2
+      | ok v2 => simp only [h2] at h; exact rawString_notRP h
+  · exact rawString_notRP h
+
+end rpstep
+
+theorem noRPInv : ∀ n, NoRPInv n := by
+  intro n
+  induction n with
+  | zero => exact noRPInv_zero
+  | succ n ih =>
+    exact {
+      interp := interp_rp ih
+      interpL := interpL_rp ih
+      interpEs := interpEs_rp ih
+      interpVl := interpVl_rp ih
+      tokRender := tokRender_rp ih
+      tokResolve := tokResolve_rp ih
+      descend := descend_rp ih
+      finalLoop := finalLoop_rp ih
+      interpStrOrVl := interpStrOrVl_rp ih
+      layersStr := layersStr_rp ih
+      slice := slice_rp ih
+      strLoop := strLoop_rp ih
+      sliceFinish := sliceFinish_rp ih }
+
+/-! ### YAML never produces nested layer lists -/
+
+mutual
+theorem ofYaml_noNest : ∀ (y : Yaml) (v : Value), Value.ofYaml y = .ok v → NoNest v
+  | .null, v, h => by simp only [Value.ofYaml, Except.ok.injEq] at h; subst h; simp [NoNest]
+  | .bool _, v, h => by simp only [Value.ofYaml, Except.ok.injEq] at h; subst h; simp [NoNest]
+  | .num _, v, h => by simp only [Value.ofYaml, Except.ok.injEq] at h; subst h; simp [NoNest]
+  | .str _, v, h => by simp only [Value.ofYaml, Except.ok.injEq] at h; subst h; simp [NoNest]
+  | .tagged _ _, v, h => by simp [Value.ofYaml] at h
+  | .seq l, v, h => by
+    simp only [Value.ofYaml] at h
+    cases h1 : ofYamlL l with
+    | error e => simp [h1] at h
+    | ok l' =>
+      simp only [h1, Except.ok.injEq] at h
+      subst h
+      simp only [NoNest]
+      exact ofYamlL_noNest l l' h1
+  | .map es, v, h => by
+    simp only [Value.ofYaml] at h
+    cases h1 : ofYamlEs es {} with
+    | error e => simp [h1] at h
+    | ok m =>
+      simp only [h1, Except.ok.injEq] at h
+      subst h
+      simp only [Mapping.toValue, NoNest]
+      exact ofYamlEs_noNest es {} m (by simp [NoNestEs]) h1
+theorem ofYamlL_noNest : ∀ (l : List Yaml) (r : List Value), ofYamlL l = .ok r → NoNestL r
+  | [], r, h => by simp only [ofYamlL, Except.ok.injEq] at h; subst h; simp [NoNestL]
+  | y :: ys, r, h => by
+    simp only [ofYamlL] at h
+    cases h1 : Value.ofYaml y with
+    | error e => simp [h1] at h
+    | ok v =>
+      simp only [h1] at h
+      cases h2 : ofYamlL ys with
+      | error e => simp [h2] at h
+      | ok vs =>
+        simp only [h2, Except.ok.injEq] at h
+        subst h
+        exact ⟨ofYaml_noNest y v h1, ofYamlL_noNest ys vs h2⟩
+theorem ofYamlEs_noNest : ∀ (es : List (Yaml × Yaml)) (m m' : Mapping),
+    NoNestEs m.es → ofYamlEs es m = .ok m' → NoNestEs m'.es
+  | [], m, m', hm, h => by simp only [ofYamlEs, Except.ok.injEq] at h; exact h ▸ hm
+  | (k, v) :: rest, m, m', hm, h => by
+    simp only [ofYamlEs] at h
+    cases h1 : Key.ofYaml k with
+    | error e => simp [h1] at h
+    | ok k' =>
+      simp only [h1] at h
+      cases h2 : Value.ofYaml v with
+      | error e => simp [h2] at h
+      | ok v' =>
+        simp only [h2] at h
+        cases h3 : m.insert k' v' with
+        | error e => simp [h3] at h
+        | ok m1 =>
+          simp only [h3] at h
+          exact ofYamlEs_noNest rest m1 m'
+            (noNestPred.insertImpl_pres (m := m) hm (ofYaml_noNest v v' h2) h3) h
+end
+
 end Reclass
